@@ -35,6 +35,29 @@ pub mod dm { use super::*; #[derive(derive_more::Debug)] pub struct U; #[derive(
              #[derive(derive_more::Debug)] pub struct S { pub f: A } }
 pub struct Skipped;
 pub fn q(s: &str) -> String { format!("{:?}", s) }
+// a field whose Debug writes "e" and then fails
+pub struct E;
+impl Debug for E { fn fmt(&self, f: &mut Formatter<'_>) -> fmt::Result { f.write_str("e")?; Err(fmt::Error) } }
+// formatting into a String, the error (if any) shown as a marker (format! would panic on it)
+#[macro_export] macro_rules! wr { ($l:literal, $v:expr) => {{ use core::fmt::Write as _; let mut s = String::new();
+    let r = write!(s, $l, $v); if r.is_err() { s.push_str("<ERR>"); } s }} }
+// a writer that fails ONCE, when more than `budget` bytes have arrived (it keeps what fits, and accepts later writes again)
+pub struct Sink { pub buf: String, pub budget: usize, pub tripped: bool }
+impl fmt::Write for Sink { fn write_str(&mut self, s: &str) -> fmt::Result {
+    if !self.tripped && self.buf.len() + s.len() > self.budget {
+        let mut n = self.budget - self.buf.len(); while !s.is_char_boundary(n) { n -= 1; }
+        self.buf.push_str(&s[..n]); self.tripped = true; return Err(fmt::Error); }
+    self.buf.push_str(s); Ok(()) } }
+// what reaches such a writer, and the result, for every budget up to the full length
+pub fn sinks<T: Debug>(v: &T, pretty: bool) -> String {
+    use core::fmt::Write as _;
+    let mut full = String::new();
+    let _ = if pretty { write!(full, "{:#?}", v) } else { write!(full, "{:?}", v) };
+    let mut out = String::new();
+    for b in 0..=full.len() { let mut s = Sink { buf: String::new(), budget: b, tripped: false };
+        let r = if pretty { write!(s, "{:#?}", v) } else { write!(s, "{:?}", v) };
+        out.push_str(&format!("{}:{}:{};", b, r.is_ok(), s.buf)); }
+    out }
 '''
 
 # ---------------------------------------------------------------------------------------------------
@@ -48,7 +71,7 @@ def builder_probe(cases):
         rows.append(f'    ({i}, {json.dumps(c["name"])}, &[{codes}], {str(c["ne"]).lower()}, {str(c["o"]["alt"]).lower()}, {str(c["o"]["w"]).lower()}),')
     return ATOMS + r'''
 fn val(c: u8, dmv: bool) -> &'static dyn Debug {
-    match (c, dmv) { (b'A', _) => &A, (b'M', _) => &M, (b'X', _) => &X,
+    match (c, dmv) { (b'A', _) => &A, (b'M', _) => &M, (b'X', _) => &X, (b'E', _) => &E,
         (b'U', false) => &st::U, (b'U', true) => &dm::U, (b'T', false) => &st::T(A), (b'T', true) => &dm::T(A),
         (b'S', false) => &st::S { f: A }, (b'S', true) => &dm::S { f: A }, _ => unreachable!() } }
 struct Script { name: &'static str, fs: &'static [u8], ne: bool, dmv: bool }
@@ -58,8 +81,8 @@ impl Debug for Script { fn fmt(&self, f: &mut Formatter<'_>) -> fmt::Result {
         if self.ne { b.finish_non_exhaustive() } else { b.finish() } }
     else { let mut b = f.debug_tuple(self.name); for c in self.fs { b.field(val(*c, false)); }
         if self.ne { b.finish_non_exhaustive() } else { b.finish() } } } }
-fn show(s: &Script, alt: bool, w: bool) -> String { match (alt, w) { (false, false) => format!("{:?}", s), (true, false) => format!("{:#?}", s),
-    (false, true) => format!("{:3?}", s), (true, true) => format!("{:#3?}", s) } }
+fn show(s: &Script, alt: bool, w: bool) -> String { match (alt, w) { (false, false) => wr!("{:?}", s), (true, false) => wr!("{:#?}", s),
+    (false, true) => wr!("{:3?}", s), (true, true) => wr!("{:#3?}", s) } }
 fn main() {
     let cases: &[(usize, &'static str, &'static [u8], bool, bool, bool)] = &[
 ''' + "\n".join(rows) + r'''
@@ -67,7 +90,10 @@ fn main() {
     for (i, name, fs, ne, alt, w) in cases.iter().copied() {
         let s = show(&Script { name, fs, ne, dmv: false }, alt, w);
         let d = show(&Script { name, fs, ne, dmv: true }, alt, w);
-        println!("OBS {{\"k\": {}, \"std\": {}, \"dm\": {}}}", i, q(&s), q(&d));
+        // the failing writer (options other than `#` cannot be set on a hand-made formatter: width-free cases only)
+        let (ss, ds) = if w { (String::new(), String::new()) } else {
+            (sinks(&Script { name, fs, ne, dmv: false }, alt), sinks(&Script { name, fs, ne, dmv: true }, alt)) };
+        println!("OBS {{\"k\": {}, \"std\": {}, \"dm\": {}, \"std_sinks\": {}, \"dm_sinks\": {}}}", i, q(&s), q(&d), q(&ss), q(&ds));
     }
 }
 '''
@@ -78,7 +104,7 @@ fn main() {
 # ---------------------------------------------------------------------------------------------------
 KINDS = {  # field kind -> (type, value expr for std side, for dm side, echoes formatter options?)
     "A": ("A", "A", "A", True), "M": ("M", "M", "M", False), "X": ("X", "X", "X", False),
-    "U": ("{m}::U", "{m}::U", "{m}::U", False), "T": ("{m}::T", "{m}::T(A)", "{m}::T(A)", True),
+    "E": ("E", "E", "E", False), "U": ("{m}::U", "{m}::U", "{m}::U", False), "T": ("{m}::T", "{m}::T(A)", "{m}::T(A)", True),
     "S": ("{m}::S", "{m}::S {{ f: A }}", "{m}::S {{ f: A }}", True),
     "I": ("i32", "255", "255", True), "F": ("f64", "1.5", "1.5", True), "V": ("Vec<i32>", "vec![1, 20]", "vec![1, 20]", True),
     "Z": ("&'static str", '"a\\nb"', '"a\\nb"', True), "O": ("Option<{m}::T>", "Some({m}::T(A))", "Some({m}::T(A))", True),
@@ -177,6 +203,19 @@ def run(chk, tier, seed, replay):
                           tags={"kind": "builder", "class": "tuple_pretty_options" if known else "other"})
         elif c["dm"] != c["core"]:
             chk.model_drift(key, "the real builder agrees with core where the transcription does not")
+        if not c["o"]["w"]:
+            # FailStop (DebugBuilder.tla): through a writer failing at byte b, the text is the first b bytes and the result Err
+            full = c["core"][:-5] if c["core"].endswith("<ERR>") else c["core"]
+            ends_ok = not c["core"].endswith("<ERR>")
+            want = "".join(f"{b}:{'true' if (b >= len(full) and ends_ok) else 'false'}:{full[:b]};" for b in range(len(full) + 1))
+            chk.cov["evaluations"] += len(full) + 1
+            if o["std_sinks"] != want:
+                raise vlib.ToolError(f"DebugBuilder.tla's SinkView disagrees with std on {key}: {o['std_sinks'][:300]!r} vs {want[:300]!r}")
+            if o["dm_sinks"] != o["std_sinks"]:
+                first = next((x for x, y in zip(o["dm_sinks"].split(";"), o["std_sinks"].split(";")) if x != y), "")
+                chk.deviation(key + "|sink", f"through a writer that fails once, derive_more's DebugTuple leaves {first!r} (budget:ok:text) where core's "
+                              "leaves the prefix and an error", case=c, expected=o["std_sinks"][:600], observed=o["dm_sinks"][:600],
+                              tags={"kind": "builder_failstop"})
     chk.cov["traces_validated_against_impl"] += len(cases)
     chk.sample({"builder_script": cases[len(cases) // 2], "real": obs.get(len(cases) // 2)})
 
@@ -221,7 +260,9 @@ def run(chk, tier, seed, replay):
         tw = twin(0, fields, skips, form, names, generic)
         rows = []
         for sp in specs:
-            rows.append('(%s, format!("{:%s?}", %s), format!("{:%s?}", %s)),' % (json.dumps(sp), sp, "s::" + tw["st"][1], sp, "d::" + tw["dm"][1]))
+            rows.append('(%s, wr!("{:%s?}", %s), wr!("{:%s?}", %s)),' % (json.dumps(sp), sp, "s::" + tw["st"][1], sp, "d::" + tw["dm"][1]))
+        for nm, pretty in (("sink", "false"), ("sink#", "true")):
+            rows.append('(%s, sinks(&%s, %s), sinks(&%s, %s)),' % (json.dumps(nm), "s::" + tw["st"][1], pretty, "d::" + tw["dm"][1], pretty))
         unit_rows = ""
         mod = f"""use super::*;
 pub mod s {{ use super::*; {tw['st'][0]} }}
@@ -271,6 +312,8 @@ pub fn run() {{
                 rows = []
                 for sp in specs:
                     rows.append('(%s, format!("{:%s?}", s::%s), format!("{:%s?}", d::%s)),' % (json.dumps(sp), sp, ctor, sp, ctor))
+                for nm, pretty in (("sink", "false"), ("sink#", "true")):
+                    rows.append('(%s, sinks(&s::%s, %s), sinks(&d::%s, %s)),' % (json.dumps(nm), ctor, pretty, ctor, pretty))
                 mod = f"""use super::*;
 pub mod dmn {{ use super::*; #[derive(derive_more::Debug)] pub struct S {{ pub f: A }} }}
 pub mod s {{ use super::*; {sdecl} }}
